@@ -69,6 +69,10 @@ def main():
     finally:
         sh(f"git -C /repo worktree remove --force {wt}")
         shutil.rmtree(wt, ignore_errors=True)
+    existing = os.path.join(VERIF, "seeded", sid, "meta.json")
+    if skip_tests and os.path.exists(existing):
+        res["tests_ok"] = True  # confirmed when the seed was first stored; this run only refreshes the check results
+        res["tests"] = json.load(open(existing)).get("confirmed", {}).get("pinned_suite_with_patch")
     if "--store" in sys.argv and res.get("demo_clean_rc") == 0 and res.get("demo_patched_rc") not in (0, None) and res.get("tests_ok"):
         dst = os.path.join(VERIF, "seeded", sid)
         os.makedirs(dst, exist_ok=True)
